@@ -68,6 +68,22 @@ def run(ctx):
                 one = True
             ctx.ob("C06.one-cell", one, "%s::to_mysql_text emits %s on an Ok path (need exactly one lenenc string, or FB, or one delegation)" % (ty, [e.short()[:40] for e in ems]),
                    fn=b.path, construct="cell", where=b.where(p.blocks[-1]), sample={"rule": "one-cell", "impl": ty, "emits": kinds} if npaths == 1 and ty in ("u8", "[u8]", "std::option::Option<T>") else None)
+            if ty.startswith("std::option::Option<"):
+                # the None side must produce the NULL marker (and nothing else), the Some side must delegate
+                none_side = None
+                for i, blk in enumerate(p.blocks[:-1]):
+                    t = b.term(blk)
+                    if t["k"] == "switch":
+                        v = p.origin_op(t["discr"], i)
+                        if v[0] == "discr" and T.is_param(T.peel(v[1]), 1):
+                            vals = [int(x) for x, g in zip(t["vals"], t["tgts"]) if g == p.blocks[i + 1]]
+                            none_side = vals == [0] or (not vals and "1" in t["vals"])
+                if none_side is True:
+                    ctx.ob("C06.null-marker", kinds == ["fixed"] and ems[0].const_bytes() == b"\xfb", "None is sent as %s (need the single NULL marker byte FB)" % [e.short()[:30] for e in ems],
+                           fn=b.path, construct="none-is-fb", where=b.where(p.blocks[-1]))
+                elif none_side is False:
+                    ctx.ob("C06.null-marker", kinds == ["value"], "Some(v) is sent as %s (need v's own text encoding)" % [e.short()[:30] for e in ems], fn=b.path, construct="some-delegates",
+                           where=b.where(p.blocks[-1]), nontrivial=False)
             if not one:
                 continue
             # ---- null marker ---------------------------------------------------------------------
